@@ -33,12 +33,12 @@ func init() {
 var c17Refused = []string{"!", " 1", "-1", "\n", "*", "\xff", "1\n1", strings.Repeat("a", 256), strings.Repeat("1", 300)}
 
 type c17Witness struct {
-	App     string   `json:"app"`
-	Opts    lsOpts   `json:"opts"`
-	Inputs  qstrs    `json:"valid_history"`
-	Pos     int      `json:"insert_before_request"`
-	Refused qstr     `json:"refused_input"`
-	Style   int      `json:"client_style"`
+	App     string `json:"app"`
+	Opts    lsOpts `json:"opts"`
+	Inputs  qstrs  `json:"valid_history"`
+	Pos     int    `json:"insert_before_request"`
+	Refused qstr   `json:"refused_input"`
+	Style   int    `json:"client_style"`
 }
 
 type c17AppDef struct {
